@@ -539,7 +539,9 @@ class Graph:
                 kw["default"] = d["t"] if d["k"] == "template" else (dec(d["v"]) if d["k"] == "value" else self.node(mn["dflt"]))
             if mn.get("dom") is not None:
                 kw["domain"] = dec(self.nodes[mn["dom"]]["v"])
-            if style == "annot" and not kw:
+            if style == "auto":
+                attrs[name] = Option.auto(**kw)
+            elif style == "annot" and not kw:
                 annots[name] = int
             elif style == "plain" and "domain" not in kw and "default" in kw and not isinstance(kw["default"], Evaluatable):
                 attrs[name] = kw["default"]
